@@ -4,6 +4,7 @@ import (
 	"fmt"
 	"io"
 	"net"
+	"runtime"
 	"strings"
 	"sync"
 	"time"
@@ -12,10 +13,87 @@ import (
 )
 
 func init() {
-	register("C09", scnSlots, scnIdle)
-	register("C10", scnLifecycle)
+	register("C09", scnSlots, scnBurst, scnIdle)
+	register("C10", scnLifecycle, scnRestart)
 	executors["slots"] = runSlots
 	executors["idle"] = runIdle
+	executors["burst"] = runBurst
+}
+
+// runBurst: k connections arrive at (nearly) the same instant at a server with
+// MaxClients = maxc; exactly min(k, maxc) of them must be served - each of
+// those answers a probe -, the others closed; after all disconnect the list is
+// empty again and a new connection is served.   in: maxc k
+func runBurst(in []string) string {
+	steerMu.Lock()
+	defer steerMu.Unlock()
+	modbus.VerifSetYield(nil)
+	maxc, k := atoi(in[0]), atoi(in[1])
+	h := &countHandler{}
+	srv, err := modbus.NewServer(&modbus.ServerConfiguration{URL: "tcp://127.0.0.1:0", MaxClients: uint(maxc),
+		Timeout: 30 * time.Second, Logger: quiet}, h)
+	if err != nil {
+		return "harness-error:" + err.Error()
+	}
+	if err := srv.Start(); err != nil {
+		return "harness-error:" + err.Error()
+	}
+	defer srv.Stop()
+	addr := srv.VerifListenAddr().String()
+	conns := make([]net.Conn, k)
+	var wg sync.WaitGroup
+	for i := 0; i < k; i++ {
+		wg.Add(1)
+		go func(i int) {
+			defer wg.Done()
+			c, err := net.DialTimeout("tcp", addr, time.Second)
+			if err == nil {
+				conns[i] = c
+			}
+		}(i)
+	}
+	wg.Wait()
+	want := k
+	if maxc < k {
+		want = maxc
+	}
+	waitCount(srv, want, time.Second)
+	time.Sleep(20 * time.Millisecond)
+	_, n, _ := srv.VerifServerSnapshot()
+	resp, closed, other := 0, 0, 0
+	res := make([]string, k)
+	for i := range conns {
+		wg.Add(1)
+		go func(i int) {
+			defer wg.Done()
+			res[i] = probe(conns[i])
+		}(i)
+	}
+	wg.Wait()
+	for _, r := range res {
+		switch r {
+		case "resp":
+			resp++
+		case "closed":
+			closed++
+		default:
+			other++
+		}
+	}
+	for _, c := range conns {
+		if c != nil {
+			c.Close()
+		}
+	}
+	waitCount(srv, 0, 2*time.Second)
+	_, after, _ := srv.VerifServerSnapshot()
+	c, err := net.DialTimeout("tcp", addr, time.Second)
+	fresh := "closed"
+	if err == nil {
+		fresh = probe(c)
+		c.Close()
+	}
+	return fmt.Sprintf("n=%d resp=%d closed=%d other=%d after=%d fresh=%s", n, resp, closed, other, after, fresh)
 }
 
 // The yield hook is process-global: steered server scenarios run one at a time.
@@ -112,13 +190,33 @@ func probe(c net.Conn) string {
 	return "resp"
 }
 
+// accGoroutines counts live goroutines inside acceptTCPClients once the
+// number is stable (an accept goroutine whose listener was closed returns at once)
+func accGoroutines() int {
+	count := func() int {
+		buf := make([]byte, 1<<20)
+		n := runtime.Stack(buf, true)
+		return strings.Count(string(buf[:n]), "(*ModbusServer).acceptTCPClients(")
+	}
+	last := count()
+	for i := 0; i < 60; i++ {
+		time.Sleep(3 * time.Millisecond)
+		c := count()
+		if c == last && i >= 1 {
+			return c
+		}
+		last = c
+	}
+	return last
+}
+
 func snap(srv *modbus.ModbusServer) (string, int) {
 	st, n, _ := srv.VerifServerSnapshot()
 	s := "0"
 	if st {
 		s = "1"
 	}
-	return fmt.Sprintf("%s/%d", s, n), n
+	return fmt.Sprintf("%s/%d/a%d", s, n, accGoroutines()), n
 }
 
 // waitCount polls until the active list has the wanted length
@@ -462,6 +560,17 @@ func scnSlots(o *Out, r *Rng, thorough bool) {
 	}
 }
 
+func scnBurst(o *Out, r *Rng, thorough bool) {
+	n := 12
+	if thorough {
+		n = 200
+	}
+	for i := 0; i < n; i++ {
+		maxc := 1 + r.Intn(4)
+		o.Run("burst", itoa(maxc)+" "+itoa(2+r.Intn(3*maxc)))
+	}
+}
+
 func scnIdle(o *Out, r *Rng, thorough bool) {
 	o.Run("idle", "2 200")
 	o.Run("idle", "3 350")
@@ -470,6 +579,12 @@ func scnIdle(o *Out, r *Rng, thorough bool) {
 			o.Run("idle", itoa(1+r.Intn(4))+" "+itoa(150+r.Intn(400)))
 		}
 	}
+}
+
+// rapid Stop/Start cycles: after each cycle exactly one accept goroutine is alive
+func scnRestart(o *Out, r *Rng, thorough bool) {
+	o.Run("slots", "2 S P S P S P S P S P S C1 R1 P S C2 R2 P")
+	o.Run("slots", "1 S C1 P S P S C2 R2 P S P S P S C3 R3")
 }
 
 func scnLifecycle(o *Out, r *Rng, thorough bool) {
